@@ -76,16 +76,40 @@ def make_base(spec):
     raise ValueError(spec['kind'])
 
 
+TRUTHY = (True, 1, 'yes', ['match'])
+FALSY = (False, None, 0, '')
+
+
 def pred_fn(world, pred):
-    hs, d = set(pred['hosts']), pred['dc']
+    """HostFilterPolicy's contract is truthiness ("if it returns a falsy value ..."): the predicate answers with a mix of
+    True / 1 / non-empty objects and False / None / 0 / '' (what re.match, dict.get, counters return), never only bools."""
+    hs, d, k = set(pred['hosts']), pred['dc'], pred.get('style', 0)
 
     def f(host):
-        return world.idx[host] in hs or (d != 0 and dcidx(host.datacenter) == d)
+        i = world.idx[host]
+        ok = i in hs or (d != 0 and dcidx(host.datacenter) == d)
+        return TRUTHY[(i + k) % 4] if ok else FALSY[(i + k) % 4]
     return f
 
 
+def update_location_info(pol, host, datacenter, rack):
+    """A datacenter/rack change is delivered by the REAL ControlConnection._update_location_info through a REAL
+    ProfileManager whose only profile carries `pol`; returns whether the cluster delivered anything."""
+    from cassandra.cluster import ControlConnection, ProfileManager, ExecutionProfile, EXEC_PROFILE_DEFAULT
+
+    class Cluster(object):
+        pass
+    cl = Cluster()
+    cl.profile_manager = ProfileManager()
+    cl.profile_manager.profiles[EXEC_PROFILE_DEFAULT] = ExecutionProfile(load_balancing_policy=pol)
+    cc = object.__new__(ControlConnection)
+    cc._cluster = cl
+    return bool(ControlConnection._update_location_info(cc, host, datacenter, rack))
+
+
 def apply_event(world, pol, ev):
-    """Deliver one event to `pol` (any policy object: wrappers delegate)."""
+    """Deliver one event to `pol` (any policy object: wrappers delegate).  Returns False when the cluster delivered
+    nothing (location 'change' to the same datacenter and rack)."""
     import cassandra.policies as P
     k = ev[0]
     if k == 'P':
@@ -104,12 +128,10 @@ def apply_event(world, pol, ev):
     elif k == 'R':
         pol.on_remove(world.hosts[ev[1]])
     elif k == 'L':
-        h = world.hosts[ev[1]]
-        pol.on_down(h)
-        h.set_location_info(dcname(ev[2]), 'r%d' % ev[3])
-        pol.on_up(h)
+        return update_location_info(pol, world.hosts[ev[1]], dcname(ev[2]), 'r%d' % ev[3])
     else:
         raise ValueError(ev)
+    return True
 
 
 def members_step(live, ev):
@@ -202,11 +224,12 @@ def run_history(spec, history, report=None, queries=('base', 'filter', 'default'
     n = len(world.hosts)
     for step, ev in enumerate(history):
         # deliver through one of the objects in turn (wrappers delegate to the same child)
-        apply_event(world, carriers[('base', 'filter', 'default')[step % 3]], ev)
+        delivered = apply_event(world, carriers[('base', 'filter', 'default')[step % 3]], ev)
         if ev[0] == 'P':
             dflt._cluster_metadata = world.cluster.metadata
-        live = members_step(live, ev)
-        rec = {'ev': ev, 'state': observe_base(world, spec, base), 'plans': [],
+        if delivered:
+            live = members_step(live, ev)
+        rec = {'ev': ev, 'delivered': delivered, 'state': observe_base(world, spec, base), 'plans': [],
                'dist': [base.distance(world.hosts[i]) for i in range(n)]}
         if ev[0] == 'P' and spec['kind'] == 'dca':
             # order in which tuple(set(..)) happened to enumerate each DC's hosts (hash dependent: model input)
